@@ -188,6 +188,26 @@ def build_harness():
     return rc == 0, (out + err)[-6000:]
 
 
+def build_extra(mod):
+    """further executors a property module declares: EXTRA_EXECUTORS = {name: {'dir', 'bin', 'sync'(optional callable run before the build)}}"""
+    for name, ex in getattr(mod, 'EXTRA_EXECUTORS', {}).items():
+        with Lock('cargo'):
+            try:
+                if ex.get('sync'): ex['sync']()
+            except BaseException as e:
+                return False, f'{name}: sync failed: {e}'
+            lock_dst = os.path.join(ex['dir'], 'Cargo.lock')
+            if not os.path.exists(lock_dst): open(lock_dst, 'w').write(open('/repo/Cargo.lock').read())
+            rc, out, err = sh(['cargo', 'build', '--offline'], cwd=ex['dir'], timeout=3000)
+        if rc != 0: return False, f'{name}: ' + (out + err)[-6000:]
+    return True, ''
+
+
+def impl_cmd(mod, prop, case):
+    g = mod.executor_of(case) if hasattr(mod, 'executor_of') else None
+    return [HARNESS_BIN, prop] if g is None else [mod.EXTRA_EXECUTORS[g]['bin']]
+
+
 # ----------------------------------------------------------------------------- executors
 
 def run_exec(cmd, cases, per_case_timeout=10.0, label=''):
@@ -274,6 +294,7 @@ def main():
     # 3. builds
     drv_ok, drv_log = build_driver()
     har_ok, har_log = build_harness()
+    if har_ok: har_ok, har_log = build_extra(mod)
     broken = []          # things that make the check unable to run at all
     if not har_ok:
         broken.append('harness does not build against /repo: ' + har_log[-1500:])
@@ -306,7 +327,10 @@ def main():
 
     impl, model = {}, {}
     if har_ok:
-        impl = run_exec([HARNESS_BIN, prop], cases, label='impl', per_case_timeout=getattr(mod, 'CASE_TIMEOUT', 10.0))
+        groups = {}
+        for c in cases: groups.setdefault(tuple(impl_cmd(mod, prop, c['case'])), []).append(c)
+        for cmd, cs in groups.items():
+            impl.update(run_exec(list(cmd), cs, label='impl', per_case_timeout=getattr(mod, 'CASE_TIMEOUT', 10.0)))
     if drv_ok and getattr(mod, 'USES_DRIVER', True):
         model = run_exec([DRIVER, prop], cases, label='model')
 
@@ -351,7 +375,7 @@ def main():
         small = c['case']
         if hasattr(mod, 'shrink') and har_ok:
             def still_fails(cand):
-                a = run_exec([HARNESS_BIN, prop], [{'id': 's', 'case': cand}], label='shrink')
+                a = run_exec(impl_cmd(mod, prop, cand), [{'id': 's', 'case': cand}], label='shrink')
                 mm = run_exec([DRIVER, prop], [{'id': 's', 'case': cand}], label='shrink') if drv_ok and getattr(mod, 'USES_DRIVER', True) else {}
                 oo = a.get('s', {}).get('out')
                 if oo is None: return False
